@@ -15,7 +15,7 @@ open Unyt.Persist
 def c11Shared : RouteCfg :=
   { keepsValues := true, keepsDtype := true, keepsClass := true,
     unitSame := true, unitByDisplayStr := false, unitDataCarried := true, unitCanon := .keep,
-    regSame := true, keepsAdded := true, keepsModifiedDefault := true, keepsRemoved := true,
+    regSame := true, keepsAdded := true, keepsModifiedDefault := true, keepsFlagOnlyDefault := true, keepsRemoved := true,
     userRowCanon := .keep, dfltRowCanon := .keep, keepsUnitSystem := true }
 
 /-- the present code: pinned tree + the `fix:` commits, including the five C11 ones
@@ -57,7 +57,7 @@ def c11AsIs : RouteTable := [
   (.saveLoadTxt, { c11Shared with
       keepsDtype := false, keepsClass := false, unitSame := false,
       unitDataCarried := false, unitCanon := .intern, regSame := false,
-      keepsAdded := false, keepsModifiedDefault := false, keepsRemoved := false,
+      keepsAdded := false, keepsModifiedDefault := false, keepsFlagOnlyDefault := false, keepsRemoved := false,
       dfltRowCanon := .intern, keepsUnitSystem := false }),
   (.unitOfStr, { c11Shared with
       unitSame := false, unitDataCarried := false,
